@@ -9,6 +9,8 @@ import (
 	"encoding/json"
 	"fmt"
 	"net/http"
+	"os"
+	"runtime/debug"
 	"sort"
 	"strconv"
 	"strings"
@@ -25,7 +27,7 @@ type scenario struct {
 	Method      string
 	ContentType string
 	Accept      string
-	Body        jmap   // nil with RawBody set = not JSON
+	Body        jmap // nil with RawBody set = not JSON
 	RawBody     string
 	Path        string
 	Send        jmap
@@ -96,6 +98,9 @@ func runScenario(sc *scenario) (res runResult) {
 			res.Handled = true
 			res.Result = "panic"
 			res.PanicMsg = fmt.Sprint(p)
+			if os.Getenv("VERIF_STACK") != "" {
+				res.PanicMsg += "\n" + string(debug.Stack())
+			}
 			res.NFall = r.nFall
 			res.Final = w
 			res.Statuses = rw.Status
